@@ -11,6 +11,8 @@ import (
 	"github.com/boz/kcache/nsname"
 	"k8s.io/apimachinery/pkg/watch"
 
+	"github.com/boz/kcache"
+
 	"verifharness/kit"
 )
 
@@ -417,6 +419,218 @@ func e4RaceCase(seed uint64, n int) Case {
 	}}
 }
 
+// e4RetryRaceCase: a relist is handled at (almost) the instant the reconnect
+// delay of an earlier disconnect expires, with the watcher slowed down at its
+// own log points, so that the expiry falls INTO the watcher's handling of the
+// reset.  The list is newer than everything the old session delivered and
+// contains a deleted and re-created object; once the list has been consumed,
+// with the server quiet since before its snapshot, the cache must equal the
+// list, and no Watch call may go back to a version older than the list's.
+func e4RetryRaceCase(seed uint64, n int) Case {
+	id := fmt.Sprintf("E4/relist-at-reconnect-expiry/%d/%d", seed, n)
+	// offset of the list's release relative to (disconnect + reconnect delay)
+	off := time.Duration(n%40-8) * 100 * time.Microsecond
+	hold := []time.Duration{150 * time.Microsecond, 400 * time.Microsecond, 900 * time.Microsecond}[(n/40)%3]
+	return Case{ID: id, Desc: map[string]interface{}{"seed": seed, "n": n, "list_release_offset": off.String(), "watcher_hold": hold.String(), "what": "relist consumed at the expiry of a pending reconnect delay"}, Bubble: true, Run: func(r *Res) {
+		rng := kit.NewRng(kit.Mix(seed, uint64(n)+4700))
+		P := 10 * time.Second
+		core := kit.NewCore(&kit.Plan{Seed: rng.U64(), PYield: 100, Targets: map[string]time.Duration{"watcher|": hold}})
+		srv := kit.NewPodServer(core)
+		for _, nm := range []string{"a", "b", "c"} {
+			srv.Put(kit.Pod("n0", nm, "", map[string]string{"l": "x"}))
+		}
+		release := make(chan struct{})
+		srv.ListPlan = func(i int) kit.ListFault { return kit.ListFault{SnapshotLate: true} }
+		srv.OnList = func(i int) {
+			if i == 2 {
+				<-release
+			}
+		}
+		srv.WatchPlan = func(i int) kit.WatchFault {
+			f := kit.NoWatchFault()
+			if i == 1 {
+				f.CloseAfter = 2
+			}
+			return f
+		}
+		g, err := newCtlRig(core, srv, P, nil)
+		if err != nil {
+			close(release)
+			r.Inc(err.Error())
+			return
+		}
+		released := false
+		defer func() {
+			if !released {
+				close(release)
+			}
+			g.shutdown(r, "C12")
+		}()
+		sub, _ := g.ctl.Subscribe()
+		mir := startMirror("root-subscriber", sub.Events(), sub.Ready(), sub.Cache())
+		if !waitCh(g.ctl.Ready(), virtBound) {
+			r.V("C03", "never-ready", "controller not ready")
+			return
+		}
+		g.barrier()
+		s0, _ := cacheSnap(g.ctl.Cache())
+		mir.seed(s0)
+		for i := 0; i < 3000 && len(srv.Lists()) < 2; i++ {
+			time.Sleep(10 * time.Millisecond)
+		}
+		if len(srv.Lists()) != 2 {
+			r.Inc("list #2 not observed")
+			return
+		}
+		// two events end stream #1; then a delete + re-create that only the list will show
+		srv.Put(kit.Pod("n0", "b", "", map[string]string{"l": "y"}))
+		srv.Put(kit.Pod("n0", "c", "", map[string]string{"l": "y"}))
+		disconnected := time.Now()
+		srv.Delete("n0", "a")
+		srv.Put(kit.Pod("n0", "a", "", map[string]string{"l": "x"}))
+		wait := kcache.VerifWatchRetryDelay + off
+		time.Sleep(wait)
+		close(release)
+		released = true
+		time.Sleep(100 * time.Millisecond)
+		g.barrier()
+		r.Add("post-list-checks", 1)
+		want := kit.SnapOf(srv.Objects())
+		got, _ := cacheSnap(g.ctl.Cache())
+		if !got.Equal(want) {
+			r.V("C03", "stale-event-applied-after-list", "list #2 was released %v after a disconnect (reconnect delay %v, watcher held %v at its log points) and consumed; 100ms later, the server quiet since before its snapshot, the cache is %v, the list was %v; watch calls: %s; last events at the subscriber: %s", time.Since(disconnected)-100*time.Millisecond, kcache.VerifWatchRetryDelay, hold, got, want, watchSummary(srv.Watches()), tailEvents(mir.events(), 8))
+			return
+		}
+		time.Sleep(3 * time.Second)
+		g.barrier()
+		lists := srv.Lists()
+		if len(lists) == 2 && lists[1].Returned {
+			// once the watch has been restarted at the list's version, no later Watch call
+			// may go back behind it (a reconnect made BEFORE the list was consumed may)
+			restarted := 0
+			for _, w := range srv.Watches() {
+				if restarted == 0 && kit.Atoi(w.RV) == lists[1].RV {
+					restarted = w.N
+					continue
+				}
+				if restarted > 0 && w.N > restarted && kit.Atoi(w.RV) < lists[1].RV {
+					r.V("C03", "watch-restarted-before-list-version", "the watch had been restarted at list #2's version %d (Watch call #%d); Watch call #%d then asked for the OLDER version %s: history the list already covers is replayed on top of it; watch calls: %s", lists[1].RV, restarted, w.N, w.RV, watchSummary(srv.Watches()))
+					return
+				}
+			}
+		}
+		got, _ = cacheSnap(g.ctl.Cache())
+		if !got.Equal(want) {
+			r.V("C03", "stale-event-applied-after-list", "3s after list #2 was consumed (server quiet) the cache is %v, the server %v; watch calls: %s", got, want, watchSummary(srv.Watches()))
+			return
+		}
+		mir.report(r, "C03")
+		r.Add("relist-at-reconnect-expiry-cases", 1)
+		r.Key(id)
+		r.Set("signatures", strconv.FormatUint(core.Signature(), 16))
+		r.Sample = map[string]interface{}{"offset": off.String(), "hold": hold.String(), "watch_calls": watchSummary(srv.Watches())}
+	}}
+}
+
+
+// e4StatusAtRelistCase: a Status frame (e.g. 410 Gone) arrives on the watch
+// stream at (almost) the instant a relist is consumed and the watcher is reset.
+// Afterwards the controller must still follow the server: later events are
+// applied, and after one further relist the cache equals the server.
+func e4StatusAtRelistCase(seed uint64, n int) Case {
+	id := fmt.Sprintf("E4/status-frame-at-relist/%d/%d", seed, n)
+	// even n: the frame around the release, nobody held; odd n: the watcher is held at its
+	// log points, a plain event keeps it busy, the Status frame (in front of the next event)
+	// and the reset both arrive while it is busy
+	hold := []time.Duration{0, 200 * time.Microsecond, 0, 500 * time.Microsecond}[n%4]
+	off := time.Duration(n/4%12-6) * 50 * time.Microsecond
+	if hold > 0 {
+		off = time.Duration(n/4%8) * hold / 8
+	}
+	return Case{ID: id, Desc: map[string]interface{}{"seed": seed, "n": n, "frame_offset_from_list_release": off.String(), "hold": hold.String(), "what": "Status frame on the old stream while the relist resets the watcher"}, Bubble: true, Run: func(r *Res) {
+		rng := kit.NewRng(kit.Mix(seed, uint64(n)+4800))
+		P := 10 * time.Second
+		plan := &kit.Plan{Seed: rng.U64(), PYield: 100, PSleep: 20, MaxSleep: 60 * time.Microsecond}
+		if hold > 0 {
+			plan.Targets = map[string]time.Duration{"watcher|": hold}
+		}
+		core := kit.NewCore(plan)
+		srv := kit.NewPodServer(core)
+		for _, nm := range []string{"a", "b", "c"} {
+			srv.Put(kit.Pod("n0", nm, "", map[string]string{"l": "x"}))
+		}
+		release := make(chan struct{})
+		srv.OnList = func(i int) {
+			if i == 2 {
+				<-release
+			}
+		}
+		srv.WatchPlan = func(i int) kit.WatchFault {
+			f := kit.NoWatchFault()
+			if i == 1 {
+				// a Status frame in front of the 1st (and 2nd) event of the first stream
+				f.Frames = map[int][]watchEvent{1: {kit.StatusFrame()}, 2: {kit.StatusFrame()}}
+			}
+			return f
+		}
+		g, err := newCtlRig(core, srv, P, nil)
+		if err != nil {
+			close(release)
+			r.Inc(err.Error())
+			return
+		}
+		released := false
+		defer func() {
+			if !released {
+				close(release)
+			}
+			g.shutdown(r, "C12")
+		}()
+		if !waitCh(g.ctl.Ready(), virtBound) {
+			r.V("C03", "never-ready", "controller not ready")
+			return
+		}
+		for i := 0; i < 3000 && len(srv.Lists()) < 2; i++ {
+			time.Sleep(10 * time.Millisecond)
+		}
+		if len(srv.Lists()) != 2 {
+			r.Inc("list #2 not observed")
+			return
+		}
+		time.Sleep(time.Millisecond)
+		srv.Put(kit.Pod("n0", "c", "", map[string]string{"l": "w"})) // a plain event first
+		if hold == 0 {
+			time.Sleep(5 * time.Millisecond)
+		}
+		if off < 0 {
+			srv.Put(kit.Pod("n0", "b", "", map[string]string{"l": "y"})) // Status frame + event now
+			time.Sleep(-off)
+			close(release)
+		} else {
+			close(release)
+			time.Sleep(off)
+			srv.Put(kit.Pod("n0", "b", "", map[string]string{"l": "y"}))
+		}
+		released = true
+		time.Sleep(50 * time.Millisecond)
+		srv.Put(kit.Pod("n0", "c", "", map[string]string{"l": "z"}))
+		srv.Delete("n0", "a")
+		// server quiet from here: at most one further relist later the cache equals it
+		time.Sleep(P + P/5 + 2*time.Second)
+		g.barrier()
+		r.Add("convergence-checks", 1)
+		want := kit.SnapOf(srv.Objects())
+		got, _ := cacheSnap(g.ctl.Cache())
+		if !got.Equal(want) {
+			r.V("C03", "not-converged-after-relist", "a Status frame arrived on the watch stream %v relative to the consumption of list #2; the server then changed twice and went quiet; %v later (period %v) the cache is %v, the server %v; lists: %d; watch calls: %s\n%s", off, P+P/5+2*time.Second, P, got, want, len(srv.Lists()), watchSummary(srv.Watches()), kit.CensusText(kit.Census(), 8))
+			return
+		}
+		r.Add("status-at-relist-cases", 1)
+		r.Key(id)
+		r.Sample = map[string]interface{}{"offset": off.String(), "lists": len(srv.Lists()), "watch_calls": watchSummary(srv.Watches())}
+	}}
+}
+
 func init() {
 	register("E4", func(tier string, seed uint64) []Case {
 		var cases []Case
@@ -432,6 +646,12 @@ func init() {
 		}
 		for i := 0; i < tierPick(tier, 60, 15000); i++ {
 			cases = append(cases, e4RaceCase(seed, i))
+		}
+		for i := 0; i < tierPick(tier, 120, 2400); i++ {
+			cases = append(cases, e4RetryRaceCase(seed, i))
+		}
+		for i := 0; i < tierPick(tier, 72, 1440); i++ {
+			cases = append(cases, e4StatusAtRelistCase(seed, i))
 		}
 		return cases
 	})
